@@ -260,15 +260,36 @@ RUN_TIMEOUT = [30.0]     # wall-clock watchdog per controlled run (a real deadlo
 SCENARIOS = ("arrival-own-frame", "arrival-next-frame", "arrival-stale", "poweroff", "poweron")
 
 
-def concurrent_case(ctx, sc, scenario, start, switches, seed):
+def real_runner(op, tick):
+	""" Both operations in real threads released together: the interpreter's own preemption
+	    (switch interval 1 us) decides the interleaving. """
+	import threading
+	bar = threading.Barrier(2)
+	errs = [None, None]
+
+	def body(i, f):
+		try:
+			bar.wait(10)
+			f()
+		except BaseException as e:
+			errs[i] = e
+	ta = threading.Thread(target = body, args = (0, op), daemon = True)
+	tb = threading.Thread(target = body, args = (1, tick), daemon = True)
+	ta.start(); tb.start()
+	ta.join(120); tb.join(120)
+	return {"trace": [], "points": 0, "per_thread": [0, 0], "errors": errs, "hung": ta.is_alive() or tb.is_alive()}
+
+
+def concurrent_case(ctx, sc, scenario, start, switches, seed, runner = None):
 	""" Returns (error or None, run info) """
 	rig = Rig(seed)
 	b = rig.bench
 	trx = b.nodes[0].trx
-	lock = sched.BatonLock(sc)
-	if not hasattr(trx, "_tx_queue_lock"):
-		ctx.count("no_queue_lock_attribute")
-	trx._tx_queue_lock = lock
+	if runner is None:
+		lock = sched.BatonLock(sc)
+		if not hasattr(trx, "_tx_queue_lock"):
+			ctx.count("no_queue_lock_attribute")
+		trx._tx_queue_lock = lock
 	model = Model()
 	T = 1000
 	# pre-queued bursts: one stale, one for T, one for T+1, one for T+2
@@ -299,7 +320,10 @@ def concurrent_case(ctx, sc, scenario, start, switches, seed):
 		op = lambda: trx.ctrl_if.handle_rx()
 	rig.emitted()
 	rig.log.take()
-	info = sc.run(op, lambda: b.tick(T), start, switches, timeout = RUN_TIMEOUT[0])
+	if runner is not None:
+		info = runner(op, lambda: b.tick(T))
+	else:
+		info = sc.run(op, lambda: b.tick(T), start, switches, timeout = RUN_TIMEOUT[0])
 	if info["hung"]:
 		return "deadlock: the two threads block each other", info
 	for i, e in enumerate(info["errors"]):
@@ -433,12 +457,31 @@ def concurrent(ctx, r, gran):
 	ctx.count("lock_contentions", sc.contended)
 
 
+def real_threads(ctx, r):
+	""" The same scenarios with real threads, the real lock and the interpreter's own scheduling. """
+	import sys
+	old = sys.getswitchinterval()
+	sys.setswitchinterval(1e-6)
+	try:
+		for scenario in SCENARIOS:
+			for k in range(ctx.scale(150, 1500)):
+				err, info = concurrent_case(ctx, None, scenario, 0, [], 1, runner = real_runner)
+				ctx.count("real_thread_races")
+				ctx.seen(hash(("real", ctx.shard[0], scenario, k)))
+				if err:
+					ctx.violation("real-threads", {"scenario": scenario, "iteration": k}, what = "%s (real threads): %s" % (scenario, err))
+					break
+	finally:
+		sys.setswitchinterval(old)
+
+
 def run(ctx):
 	ctx.rule = ("sequential: histories of 30-60 events (arrivals with FN = clock-3..+5, +26, +HYPERFRAME-1, ...; ticks with gaps and across "
 		"2715647 -> 0; POWEROFF/POWERON; SETFORMAT; one or two senders sharing the tick) ending with a drain; concurrent: one socket-thread "
 		"operation (arrival for the racing frame / the next frame / a past frame, POWEROFF, POWERON) against one clock tick under a baton "
 		"scheduler at line granularity - all schedules with <= 2 preemptions (quick: all with <= 1 and a sample of pairs) plus random "
-		"ones (thorough: also bytecode-instruction granularity); distinct = distinct (history, step) and distinct executed switch traces; "
+		"ones (thorough: also bytecode-instruction granularity); the same scenarios with real threads, the real lock and a 1 us "
+		"interpreter switch interval; distinct = distinct (history, step) and distinct executed switch traces; "
 		"all non-trivial")
 	ctx.assume("'already passed' is judged modulo the hyperframe (within half a hyperframe)")
 	ctx.assume("a tick racing a POWEROFF may still send / report what it had already taken out of the queue")
@@ -448,6 +491,7 @@ def run(ctx):
 		if ctx.too_many() or ctx.time_left() < 0:
 			break
 	concurrent(ctx, r, "line")
+	real_threads(ctx, r)
 	if ctx.tier == "thorough" and ctx.shard[0] % 4 == 0:
 		concurrent(ctx, r, "instruction")
 	ctx.require("histories", 100)
@@ -459,6 +503,7 @@ def run(ctx):
 	ctx.require("schedules_run", 500)
 	ctx.require("distinct_schedules", 200)
 	ctx.require("schedules_with_lock_contention", 5)
+	ctx.require("real_thread_races", 200)
 
 
 def replay(ctx, data):
